@@ -27,8 +27,8 @@ def run(tier):
                    bounds=dict(grammar=b, rewriters=list(H.SINGLE), ordered_pairs=pairs, max_union_len="all integers (symbolic)"),
                    rule=rule or "one path = one (rewriter, type shape, class of n)", describe=H.describe)
     if tier == "quick":
-        jobs = [J("types_sub11", 200, 4), J("inferred_tiny", 100, 3, "one path = one (rewriter, pair of value shapes, k class, n class)"),
-                J("types_sub8_pairs", 150, 4, "one path = one (ordered rewriter pair, union member subset, n class)")]
+        jobs = [J("types_sub11", 600, 4), J("inferred_tiny", 200, 3, "one path = one (rewriter, pair of value shapes, k class, n class)"),
+                J("types_sub8_pairs", 400, 4, "one path = one (ordered rewriter pair, union member subset, n class)")]
     else:
         jobs = [J("types_sub11", 200, 4), J("inferred_tiny", 100, 3), J("types_sub8_pairs", 150, 4),
                 J("types_sub14", 400, 5), J("types_sub17", 400, 6), J("types_sub10_pairs", 400, 5),
